@@ -16,13 +16,33 @@ EXPLANATION = ("Theorems: for every message (any number of segments, any lengths
                "running op lists + walker on the real accessors and on the extracted model; a Go panic is a violation "
                "whether or not the model agrees.")
 TRUSTED = rc.CORE_TRUSTED
-MODELLED = rc.CORE_MODELLED + ["the recursive consumers Equal / Canonicalize / copy / text / pogs are covered for panic-freedom "
-                               "by their own properties' runs (C16-C20); here the generic walker stands for their recursion"]
-ASSUMPTIONS = ["segments <= 2^32-8 bytes; 64-bit platform; arguments in the documented domain"]
-LEVEL_TEXT = ("Proof (Coq, all inputs / all op lists) of panic-freedom and in-segment results for the read-side model, "
-              "with the L0 arithmetic regenerated from the Go source and re-checked on every run; model tied to the code by "
-              "a differential run over built, raw, mutated and cyclic messages.")
-LEVEL_NOTE = ("Trusted: Coq kernel, gotrans translator (validated against the real functions), extraction, harness. "
+MODELLED = rc.CORE_MODELLED + ["recursive consumers: Equal, Canonicalize and the cross-message deep copy have Go-faithful models "
+                               "(Value/EqualM.v, Value/CanonM.v, Core/Builder.v) and C01 theorems; text.Marshal and pogs.Extract "
+                               "have models of their own (coq/Text, coq/Pogs) that are NOT composed with the reader model: for them "
+                               "the generic walker (C01_walk_safe) stands for the recursion and the C19 / C20 runs cover panic-freedom"]
+ASSUMPTIONS = ["the input is a string of bytes; 64-bit platform; arguments in the documented domain (list index in [0,Len()), "
+               "DataOffset < 2^19, pointer index a uint16). 'every segment <= 2^32-8 bytes, bytes 0..255' (msg_ok) is no longer an "
+               "assumption for messages that come from Unmarshal / UnmarshalPacked / Decoder (plain or packed): it is proved "
+               "(C01_unmarshal_msg_ok, C01_decode1_msg_ok, C01_pdecode_n_then_read_safe_any); it remains one for a Message built "
+               "directly over an application-supplied Arena (Message.Segment does not check segment lengths)"]
+LEVEL_TEXT = ("Proof (Coq, all inputs / all op lists) of panic-freedom and in-segment results for the read-side model, from raw "
+              "bytes through Unmarshal / UnmarshalPacked / Decoder (any chunking, plain and packed, malformed packed streams "
+              "included) to every in-domain accessor sequence and the generic walker, and for the consumers Equal, Canonicalize "
+              "and cross-message deep copy; L0 arithmetic regenerated from the Go source and re-checked on every run; model tied "
+              "to the code by a differential run over built, raw, mutated and cyclic messages. NOT proved: text.Marshal and "
+              "pogs.Extract on hostile bytes (see note).")
+LEVEL_NOTE = ("Gap, in plain words: the property text also names 'text rendering' and 'extraction into Go structs', and DESIGN "
+              "planned a [T1] consumers_total for them. There is NO C01 theorem for text.Marshal or pogs.Extract over the reader "
+              "model on arbitrary bytes. What exists: C19_extract_never_panics / C19_extract_total / C19_extract_fuel_sufficient "
+              "are over the pogs model's abstract struct contents (not over segment bytes), and C20 has only "
+              "C20_render_total_flat_partial; neither is composed with Core/Reader.v. For these two consumers panic-freedom on "
+              "hostile messages is covered only by the C19 / C20 differential runs (a Go panic is a violation there) and by "
+              "C01_walk_safe for the recursion shape they share. Everything else in the statement (root, accessors, all call "
+              "sequences, Equal, Canonicalize, deep copy, packed and unpacked framing) has a theorem. "
+              "Also not modelled as ops: Interface.Client() / capability-table lookup and the *Default accessors (no memory "
+              "access beyond the modelled ones); C01_accessor_safe states for typed list reads only that the value comes from an "
+              "in-segment address (which address: C03). "
+              "Trusted: Coq kernel, gotrans translator (validated against the real functions), extraction, harness. "
               "Real stack/heap exhaustion of the Go runtime is not modelled; work is bounded by C02 instead.")
 TECHNIQUE = "Coq proof over an executable model + source-to-Coq translator for the arithmetic + differential run"
 DESIGN_REF = "DESIGN.md section 6, C01"
